@@ -218,6 +218,11 @@ func (setup *SetupServerController) handleKeyExchange(in util.Container) (util.C
 			log.Debug.Println("ed25519 signature is invalid")
 			setup.reset()
 			out.SetByte(TagErrCode, ErrCodeAuthenticationFailed.Byte()) // return error 2
+		} else if username == setup.device.Name() {
+			// The accessory's own key pair is stored under its name, a controller must not replace it
+			log.Info.Println("controller uses the identifier of the accessory")
+			setup.reset()
+			out.SetByte(TagErrCode, ErrCodeAuthenticationFailed.Byte()) // return error 2
 		} else {
 			log.Debug.Println("ed25519 signature is valid")
 			// Store entity ltpk and name
